@@ -219,6 +219,11 @@ def build_cases(ctx, res):
         for _ in range(per):
             size = rng.choice([0, 1, 3, 6, 10, 16, 25, 40])
             pairs, feats = g2.random_pairs(rng, letters, size=size, lw_rev=lw_rev)
+            # every list spells its residues uniformly (own annotation: label + auth; external tool: auth only).
+            # g2.build_pairs also knows mode "mixed" (each occurrence of a residue spelled its own way); it is NOT
+            # used for verdicts: heterogeneous spelling inside one list is not among the irregularities the
+            # property's quantifier enumerates, and the unchanged code does not de-duplicate such entries
+            # (DESIGN.md 14.5)
             mode = rng.choice(["full", "auth"])
             for fg in (False, True):
                 cases.append(("corpus:" + name, {"structure": sd, "pairs": pairs, "mode": mode, "find_gaps": fg, "feats": feats}))
